@@ -91,9 +91,30 @@ Record oracle := mkOrc {
   o_blocks : Z          (* termscaler.LengthVal(..) of the bar *)
 }.
 
+(* The integer folds sumi / subi / multi / divi / modi / maxi / mini (funcsArithmatic.go arithmaticHelperiEx as of
+   /repo 2e0440e): the operands are checked LEFT TO RIGHT and the first failing check decides -- <BAD-TYPE> for an
+   operand that is not an integer, <VALUE> for a zero divisor of divi / modi.  A constant operand that is not an
+   integer additionally makes Compile report an error, but the stage (hence the marker) is the same as for a
+   run-time value.  (Model/Funcs.v f_ifold still answers <BAD-TYPE> as soon as ANY constant operand is not an
+   integer, the order before 2e0440e; it agrees with this one whenever no constant operand is bad and for the
+   folds without division: Proofs/NoCrashProof.v ifold_ltr_agrees, ifold_ltr_nodiv.) *)
+Definition f_ifold_ltr (f : fn) (args : list arg) : result bytes :=
+  match args with
+  | a0 :: ((_ :: _) as rest) =>
+      match atoi (a_val a0) with
+      | None => Ok ErrorNum
+      | Some v0 => ifold_loop f v0 rest
+      end
+  | _ => Ok ErrorArgCount
+  end.
+Definition is_ifold (f : fn) : bool :=
+  match f with Sumi | Subi | Multi | Divi | Modi | Maxi | Mini => true | _ => false end.
+Definition scalar_eval (f : fn) (args : list arg) (orc : bytes) : result bytes :=
+  if is_ifold f then f_ifold_ltr f args else Funcs.eval (f, args, orc).
+
 Definition eval_class (k : mclass) (args : list arg) (o : oracle) : option (result bytes) :=
   match k with
-  | KScalar f => Some (Funcs.eval (f, args, o_text o))
+  | KScalar f => Some (scalar_eval f args (o_text o))
   | KRepeat => Some (f_repeat true args)
   | KColor => Some (f_color (o_color o) args)
   | KBar => Some (f_bar true (o_unicode o) args (o_blocks o))
